@@ -1312,6 +1312,14 @@ insert_list:
         return (states) th->state;
     }
 
+    // an interrupt reported by a yield is consumed by it, so that it is
+    // not delivered again to a later, unrelated sleep
+    static inline int consume_error_number(thread* th) {
+        int err = th->error_number;
+        th->error_number = 0;
+        return err;
+    }
+
     int thread_yield()
     {
         RunQ rq;
@@ -1319,7 +1327,7 @@ insert_list:
         rq.current->error_number = 0;
         auto sw = AtomicRunQ(rq).goto_next();
         switch_context(sw.from, sw.to);
-        return rq.current->error_number;
+        return consume_error_number(rq.current);
     }
 
     __attribute__((noinline))
@@ -1352,7 +1360,7 @@ insert_list:
         if_update_now();
         rq.current->error_number = 0;
         switch_context(sw.from, sw.to);
-        return rq.current->error_number;
+        return consume_error_number(rq.current);
     }
 
     __attribute__((always_inline)) inline
